@@ -1055,6 +1055,8 @@ def correspondence(ctx, res, histories, limit):
     res.extra['model_histories_not_expressible'] = skipped
     if not chosen:
         return
+    # the model must run even when a proof is broken (model/ holds no proofs): make sure its .vo files exist
+    fw.coq_make(['model/Deque.vo'], jobs=4, timeout=900)
     checks = [t for _, t in chosen]
     bad, errors = fw.coq_mismatches('c11', COQ_IMPORTS, '', checks, chunk=60)
     res.traces_validated += len(checks) - len(bad)
@@ -1348,7 +1350,7 @@ def run(ctx):
     histories = []
     sequential(ctx, res, 250 if ctx.quick else 2500, stats, histories)
     publish_stats(res, stats)
-    correspondence(ctx, res, histories, 7000 if ctx.quick else 30000)
+    correspondence(ctx, res, histories, 7000 if ctx.quick else 100000)
     concurrent(ctx, res, 40 if ctx.quick else 400)
     return res
 
